@@ -325,6 +325,55 @@ def run(ck):
                                      "descr": descr, "model": model, "impl": real})
 
     s.after_apply.append(cut_model)
+    fis_corr = {"same": 0, "differ": 0, "syntactic_conditions_hold": 0, "outside_syntactic_conditions": 0,
+                "not_modelled_shape": 0}
+
+    def fission_model(p, q, op, descr, site, replay):
+        # correspondence of FissionProc.fission_proc (C01_fission_proc) with the real Procedure.fission for one lift
+        # out of a for loop (lifts out of an if and multiple lifts are not modelled)
+        if op != "fission":
+            return
+        import ast, re
+        from exo.core.LoopIR import LoopIR as _L
+        m = re.match(r"G(\[.*?\]):GapType\.(Before|After) n=(\d+)$", descr)
+        if not m or m.group(3) != "1":
+            fis_corr["not_modelled_shape"] += 1
+            return
+        path = ast.literal_eval(m.group(1))
+        if not path:
+            fis_corr["not_modelled_shape"] += 1
+            return
+        node = p._loopir_proc
+        for attr, idx in path[:-1]:
+            node = getattr(node, attr)[idx]
+        attr, idx = path[-1]
+        k = idx + (1 if m.group(2) == "After" else 0)
+        if not isinstance(node, _L.For) or attr != "body" or k <= 0 or k >= len(node.body):
+            fis_corr["not_modelled_shape"] += 1
+            return
+        if not iter_unique(p, node.iter):
+            shared_iter["skipped"] += 1
+            return
+        name = s.sc.ref(p)
+        ex = s.sc.ex
+        job = "%s %s %d" % (name, ex.sym(node.iter), k)
+        model = s.sc.interp.ask("(fission %s)" % job)
+        inside = s.sc.interp.ask("(fissionok %s)" % job).strip() == "ok"
+        real = ex.proc_sexp(q._loopir_proc)
+        defs = {n: sx for (n, sx) in ex.procs.values()}
+        stream = "fission-model-vs-impl"
+        ck.case(stream, (replay["program"], descr), sample={"loop": str(node.iter), "split_at": k},
+                tag="syntactic-conditions-hold" if inside else "outside-syntactic-conditions")
+        fis_corr["syntactic_conditions_hold" if inside else "outside_syntactic_conditions"] += 1
+        if expand(model, defs) == expand(real, defs):
+            fis_corr["same"] += 1
+            ck.corr_agree(stream)
+        else:
+            fis_corr["differ"] += 1
+            ck.corr_diverge(stream, {"program": replay["program"], "source": replay["source"],
+                                     "descr": descr, "model": model, "impl": real})
+
+    s.after_apply.append(fission_model)
     findings = s.run(n_programs=ck.n(60, 600), budget_s=ck.n(110, 1300))
     # second stream: aliasing stress (windows of windows, the same cell reached through two names) under the
     # operations whose side conditions are location-set queries
@@ -348,6 +397,7 @@ def run(ck):
     ck.cov["remove_loop_model_correspondence"] = rm_corr
     ck.cov["unroll_loop_model_correspondence"] = un_corr
     ck.cov["cut_loop_model_correspondence"] = cut_corr
+    ck.cov["fission_model_correspondence"] = fis_corr
     ck.cov["model_correspondence_skipped_iteration_sym_shared_by_several_loops"] = shared_iter["skipped"]
     ck.cov["operation_crashes"] = s.crashes
     ck.cov["inputs_run_in_reference_semantics"] = s.sc.runs + s2.sc.runs
